@@ -221,12 +221,21 @@ Fixpoint name_first (l : list fkey) (decl : fkey) : list fkey :=
                 else fk :: name_first l' decl
   end.
 
+(** inspect.go recovers constraint names from the stored CREATE text with \w+ (reFKT, reFKC, reCheck): a name
+    with any other byte -- a dash, a space, a dot, a quote character, a non-ASCII letter -- is not found, and the
+    constraint is inspected as if it had no name (a foreign key keeps its numeric id, a CHECK is anonymous) *)
+Definition is_word_ch (c : N) : bool :=
+  (N.leb 48 c && N.leb c 57) || (N.leb 65 c && N.leb c 90) || (N.leb 97 c && N.leb c 122) || N.eqb c 95.
+Definition word_name (n : str) : bool :=
+  match n with [] => false | _ => forallb is_word_ch n end.
+
 Definition inspect_fks (t : table) : list fkey :=
-  fold_left (fun l decl => match f_symbol decl with [] => l | _ => name_first l decl end)
+  fold_left (fun l decl => if word_name (f_symbol decl) then name_first l decl else l)
             (t_fks t) (fk_ids (rev (t_fks t)) 0).
 
 (** ** checks *)
-Definition inspect_check (k : check) : check := mkCheck (k_name k) (check_sql (k_expr k)).
+Definition inspect_check (k : check) : check :=
+  mkCheck (if word_name (k_name k) then k_name k else []) (check_sql (k_expr k)).
 
 (** ** tables *)
 Definition inspect_table (ct : ctable) : xtable :=
